@@ -232,3 +232,7 @@ func itoa(n int) string {
 	}
 	return s
 }
+
+func accRTO(a *Association) float64 { return a.rtoMgr.rto }
+
+func accSRTTVar(a *Association) (float64, float64) { return a.rtoMgr.srtt, a.rtoMgr.rttvar }
